@@ -117,6 +117,13 @@ func registerIntrinsics(e *Engine) {
 		st.ConcreteClock = args[0].(*smt.Term).IsTrue()
 		return nil, true
 	}
+	I[nd+"Pause"] = func(e *Engine, st *State, th *Thread, args []Value, call *ssa.CallCommon) (Value, bool) {
+		return nil, true
+	}
+	I[nd+"VisibleAtomics"] = func(e *Engine, st *State, th *Thread, args []Value, call *ssa.CallCommon) (Value, bool) {
+		st.VisibleAtomics = args[0].(*smt.Term).IsTrue()
+		return nil, true
+	}
 	I[nd+"Symbolic"] = func(e *Engine, st *State, th *Thread, args []Value, call *ssa.CallCommon) (Value, bool) {
 		return e.C.True, true
 	}
@@ -180,6 +187,7 @@ func registerIntrinsics(e *Engine) {
 		th.Status = TBlocked
 		th.BlockEpoch = 1 << 60 // only woken by quiescence
 		th.BlockWhy = "quiesce"
+		th.Ready = func(e *Engine, st *State) bool { return false }
 		st.NeedSched = true
 		return nil, false
 	}
@@ -261,6 +269,17 @@ func registerSync(e *Engine) {
 			return f(e, st, th, args, call)
 		}
 	}
+	// atomic operations are scheduling points only when the harness asks for it
+	// (nd.VisibleAtomics): counters that merely commute would multiply the schedules.
+	lockVisible := visible
+	visible = func(f Intrinsic) Intrinsic {
+		return func(e *Engine, st *State, th *Thread, args []Value, call *ssa.CallCommon) (Value, bool) {
+			if st.VisibleAtomics && e.schedPoint(st, th) {
+				return nil, false
+			}
+			return f(e, st, th, args, call)
+		}
+	}
 	mutexState := func(st *State, p Ptr) Ptr {
 		return e.fieldCell(p, e.lookupType("sync", "Mutex"), "state")
 	}
@@ -277,14 +296,15 @@ func registerSync(e *Engine) {
 		}
 		return false
 	}
-	I["(*sync.Mutex).Lock"] = visible(func(e *Engine, st *State, th *Thread, args []Value, call *ssa.CallCommon) (Value, bool) {
+	I["(*sync.Mutex).Lock"] = lockVisible(func(e *Engine, st *State, th *Thread, args []Value, call *ssa.CallCommon) (Value, bool) {
 		if lock(e, st, th, args[0].(Ptr)) {
 			return nil, true
 		}
-		e.block(st, th, "Mutex.Lock")
+		sp := mutexState(st, args[0].(Ptr))
+		e.block(st, th, "Mutex.Lock", func(e *Engine, st *State) bool { return e.cellTerm(st, sp).Val == 0 })
 		return nil, false
 	})
-	I["(*sync.Mutex).TryLock"] = visible(func(e *Engine, st *State, th *Thread, args []Value, call *ssa.CallCommon) (Value, bool) {
+	I["(*sync.Mutex).TryLock"] = lockVisible(func(e *Engine, st *State, th *Thread, args []Value, call *ssa.CallCommon) (Value, bool) {
 		return c.Bool(lock(e, st, th, args[0].(Ptr))), true
 	})
 	I["(*sync.Mutex).Unlock"] = func(e *Engine, st *State, th *Thread, args []Value, call *ssa.CallCommon) (Value, bool) {
@@ -299,7 +319,7 @@ func registerSync(e *Engine) {
 	}
 	// RWMutex: writer flag in w.state, reader count in readerCount.v
 	rw := func() types.Type { return e.lookupType("sync", "RWMutex") }
-	I["(*sync.RWMutex).Lock"] = visible(func(e *Engine, st *State, th *Thread, args []Value, call *ssa.CallCommon) (Value, bool) {
+	I["(*sync.RWMutex).Lock"] = lockVisible(func(e *Engine, st *State, th *Thread, args []Value, call *ssa.CallCommon) (Value, bool) {
 		p := args[0].(Ptr)
 		e.nilCheck(st, p, "RWMutex.Lock")
 		wp := e.fieldCell(p, rw(), "w", "state")
@@ -308,7 +328,9 @@ func registerSync(e *Engine) {
 			e.setCell(st, wp, c.BV(1, 32))
 			return nil, true
 		}
-		e.block(st, th, "RWMutex.Lock")
+		e.block(st, th, "RWMutex.Lock", func(e *Engine, st *State) bool {
+			return e.cellTerm(st, wp).Val == 0 && e.cellTerm(st, rp).Val == 0
+		})
 		return nil, false
 	})
 	I["(*sync.RWMutex).Unlock"] = func(e *Engine, st *State, th *Thread, args []Value, call *ssa.CallCommon) (Value, bool) {
@@ -321,7 +343,7 @@ func registerSync(e *Engine) {
 		e.wake(st)
 		return nil, true
 	}
-	I["(*sync.RWMutex).RLock"] = visible(func(e *Engine, st *State, th *Thread, args []Value, call *ssa.CallCommon) (Value, bool) {
+	I["(*sync.RWMutex).RLock"] = lockVisible(func(e *Engine, st *State, th *Thread, args []Value, call *ssa.CallCommon) (Value, bool) {
 		p := args[0].(Ptr)
 		e.nilCheck(st, p, "RWMutex.RLock")
 		wp := e.fieldCell(p, rw(), "w", "state")
@@ -330,7 +352,7 @@ func registerSync(e *Engine) {
 			e.setCell(st, rp, c.BV(e.cellTerm(st, rp).Val+1, 32))
 			return nil, true
 		}
-		e.block(st, th, "RWMutex.RLock")
+		e.block(st, th, "RWMutex.RLock", func(e *Engine, st *State) bool { return e.cellTerm(st, wp).Val == 0 })
 		return nil, false
 	})
 	I["(*sync.RWMutex).RUnlock"] = func(e *Engine, st *State, th *Thread, args []Value, call *ssa.CallCommon) (Value, bool) {
@@ -362,7 +384,7 @@ func registerSync(e *Engine) {
 		e.wake(st)
 		return nil, true
 	}
-	I["(*sync.WaitGroup).Wait"] = visible(func(e *Engine, st *State, th *Thread, args []Value, call *ssa.CallCommon) (Value, bool) {
+	I["(*sync.WaitGroup).Wait"] = lockVisible(func(e *Engine, st *State, th *Thread, args []Value, call *ssa.CallCommon) (Value, bool) {
 		p := e.fieldCell(args[0].(Ptr), wg(), "state", "v")
 		n := e.cellTerm(st, p)
 		if !n.IsConst() {
@@ -371,7 +393,10 @@ func registerSync(e *Engine) {
 		if n.Val == 0 {
 			return nil, true
 		}
-		e.block(st, th, "WaitGroup.Wait")
+		e.block(st, th, "WaitGroup.Wait", func(e *Engine, st *State) bool {
+			n := e.cellTerm(st, p)
+			return n.IsConst() && n.Val == 0
+		})
 		return nil, false
 	})
 	// Pool: Get returns New() or (nondeterministically) any object previously Put.
